@@ -1,2 +1,153 @@
-(* Props_C02_tree — property theorems of the proof agent owning this topic: only Theorem ... exact ... Qed. Print Assumptions. *)
+(* Props_C02_tree — C02 (and the C07 prerequisite): the radix forest refines the map.
+   Only statements closed by [exact], each followed by Print Assumptions.
+   Definitions: WFDef.v (WF_txn, wf_txnb, valid_rinfo, routes_of_txn),
+   TreeMap2.v (Rel, hop_ok, hist_ok), MapSpec.v (the specification). *)
 From FoxBase Require Import Bytes.
+From FoxRoute Require Import Node Lookup Spec Tree MapSpec CorrHist WFDef TreeWF TreeWF2 TreeMap TreeMap2.
+From Coq Require Import Permutation.
+
+(* 1. the invariant is decidable: the checker is the proposition *)
+Theorem C02_wf_checker : forall t, wf_txnb t = true <-> WF_txn t.
+Proof. exact wf_txnb_spec. Qed.
+Print Assumptions C02_wf_checker.
+
+(* 3. preservation by every operation *)
+Theorem C02_WF_empty : WF_txn empty_txn.
+Proof. exact WF_empty. Qed.
+Print Assumptions C02_WF_empty.
+
+Theorem C02_WF_insert : forall t m ri t', WF_txn t -> valid_rinfo ri -> insert t m ri = ROk t' -> WF_txn t'.
+Proof. exact WF_insert. Qed.
+Print Assumptions C02_WF_insert.
+
+Theorem C02_WF_update : forall t m ri t', WF_txn t -> rpat (ri_route ri) <> [] -> update t m ri = ROk t' -> WF_txn t'.
+Proof. exact WF_update. Qed.
+Print Assumptions C02_WF_update.
+
+Theorem C02_WF_remove : forall t m p t' r, WF_txn t -> p <> [] -> remove t m p = DOk t' r -> WF_txn t'.
+Proof. exact WF_remove. Qed.
+Print Assumptions C02_WF_remove.
+
+Theorem C02_WF_truncate : forall t ms, WF_txn t -> WF_txn (truncate t ms).
+Proof. exact WF_truncate. Qed.
+Print Assumptions C02_WF_truncate.
+
+(* ... hence for every state reachable by ANY history (direct calls and transactions) *)
+Theorem C02_WF_reachable : forall ops, Forall hop_ok ops ->
+  WF_txn (pub (hrun_state init_hstate ops)) /\
+  (forall t, cur (hrun_state init_hstate ops) = Some t -> WF_txn t).
+Proof. exact WF_reachable_thm. Qed.
+Print Assumptions C02_WF_reachable.
+
+(* 2. each operation refines the map operation: same outcome, same new contents *)
+Theorem C02_insert_refines : forall t s m ri, WF_txn t -> Rel t s -> valid_rinfo ri ->
+  match insert t m ri, m_handle s true m (rpat (ri_route ri)) (rid (ri_route ri)) with
+  | ROk t', (s', MOk) => WF_txn t' /\ Rel t' s'
+  | RExist e, (s', MExist) => e = rpat (ri_route ri) /\ s' = s
+  | RConflict ps, (s', MConflict cs) => s' = s /\ (forall q, In q ps <-> In q cs)
+  | _, _ => False
+  end.
+Proof. exact insert_refines. Qed.
+Print Assumptions C02_insert_refines.
+
+Theorem C02_insert_ok_iff : forall t s m ri, WF_txn t -> Rel t s -> valid_rinfo ri ->
+  ((exists t', insert t m ri = ROk t') <->
+   snd (m_handle s true m (rpat (ri_route ri)) (rid (ri_route ri))) = MOk).
+Proof. exact insert_ok_iff. Qed.
+Print Assumptions C02_insert_ok_iff.
+
+Theorem C02_insert_exist_iff : forall t s m ri, WF_txn t -> Rel t s -> valid_rinfo ri ->
+  ((exists e, insert t m ri = RExist e) <-> mfind s (m, rpat (ri_route ri)) <> None).
+Proof. exact insert_exist_iff. Qed.
+Print Assumptions C02_insert_exist_iff.
+
+Theorem C02_insert_conflict_iff : forall t s m ri, WF_txn t -> Rel t s -> valid_rinfo ri ->
+  ((exists ps, insert t m ri = RConflict ps) <->
+   (mfind s (m, rpat (ri_route ri)) = None /\ conflicts_of s m (rpat (ri_route ri)) <> [])) /\
+  (forall ps, insert t m ri = RConflict ps ->
+     forall q, In q ps <-> In q (conflicts_of s m (rpat (ri_route ri)))).
+Proof. exact insert_conflict_iff. Qed.
+Print Assumptions C02_insert_conflict_iff.
+
+Theorem C02_insert_routes : forall t m ri, WF_txn t -> valid_rinfo ri ->
+  match insert t m ri with
+  | ROk t' => WF_txn t' /\
+              Permutation (routes_of_txn t') ((m, rpat (ri_route ri), rid (ri_route ri)) :: routes_of_txn t) /\
+              Forall (apart (rpat (ri_route ri))) (mpats t m)
+  | RExist e => e = rpat (ri_route ri) /\ In (rpat (ri_route ri)) (mpats t m)
+  | RConflict ps => ps <> [] /\ exists others, Permutation (mpats t m) (ps ++ others) /\
+                      Forall (clash (rpat (ri_route ri))) ps /\ Forall (apart (rpat (ri_route ri))) others
+  | RNotFound => False
+  end.
+Proof. exact insert_tree_spec. Qed.
+Print Assumptions C02_insert_routes.
+
+(* the byte-level relations used above mean what the token-level rule of the specification says *)
+Theorem C02_clash_is_conflict : forall p q, clash p q -> patterns_conflict p q = true /\ p <> q.
+Proof. exact clash_conflict. Qed.
+Print Assumptions C02_clash_is_conflict.
+
+Theorem C02_apart_no_conflict : forall p q, apart p q -> patterns_conflict p q = false /\ p <> q.
+Proof. exact apart_no_conflict. Qed.
+Print Assumptions C02_apart_no_conflict.
+
+Theorem C02_update_refines : forall t s m ri, WF_txn t -> Rel t s -> rpat (ri_route ri) <> [] ->
+  match update t m ri, m_update s true m (rpat (ri_route ri)) (rid (ri_route ri)) with
+  | ROk t', (s', MOk) => WF_txn t' /\ Rel t' s'
+  | RNotFound, (s', MNotFound) => s' = s
+  | _, _ => False
+  end.
+Proof. exact update_refines. Qed.
+Print Assumptions C02_update_refines.
+
+Theorem C02_remove_refines : forall t s m p, WF_txn t -> Rel t s -> p <> [] ->
+  match remove t m p, m_delete s true m p with
+  | DOk t' r, (s', MOk, Some v) => WF_txn t' /\ Rel t' s' /\ rid r = v /\ rpat r = p
+  | DNotFound, (s', MNotFound, None) => s' = s
+  | _, _ => False
+  end.
+Proof. exact remove_refines. Qed.
+Print Assumptions C02_remove_refines.
+
+Theorem C02_truncate_refines : forall t s ms, WF_txn t -> Rel t s ->
+  WF_txn (truncate t ms) /\ Rel (truncate t ms) (m_truncate s ms).
+Proof. exact truncate_refines. Qed.
+Print Assumptions C02_truncate_refines.
+
+(* Iter().All() lists exactly the routes of the forest *)
+Theorem C02_all_is_routes : forall t, WF_txn t -> all_of t = routes_of_txn t.
+Proof. exact all_of_routes. Qed.
+Print Assumptions C02_all_is_routes.
+
+(* 4. every history: equal outcomes (conflict lists as sets), equal removed ids, equal visible
+   contents (as multisets), Len = cardinality, at every step *)
+Theorem C02_step_refines : forall hs ss o, SRel hs ss -> hop_ok o ->
+  match hstep hs o, sstep ss o with
+  | (hs', out, rm), (ss', mo, rm') => SRel hs' ss' /\ mout_matches mo out = true /\ rm = rm'
+  end.
+Proof. exact step_refines. Qed.
+Print Assumptions C02_step_refines.
+
+Theorem C02_refines_map : forall ops, Forall hop_ok ops -> hist_ok init_hstate sinit ops.
+Proof. exact C02_refines_map_thm. Qed.
+Print Assumptions C02_refines_map.
+
+(* non-vacuity: a history with conflicts, hostnames, an aborted and a committed transaction
+   satisfies the hypothesis *)
+Theorem C02_example_history_ok : Forall hop_ok ex_history.
+Proof. exact ex_history_ok. Qed.
+Print Assumptions C02_example_history_ok.
+
+(* 5. iteration order: each method's routes come out in strictly increasing byte order of the
+   pattern (hence each exactly once) *)
+Theorem C02_iter_sorted : forall t, WF_txn t ->
+  all_of t = flat_map routes_of_root (t_roots t) /\
+  Forall (fun root => map (fun e => snd (fst e)) (routes_of_root root) = map rpat (rlist root) /\
+                      Sorted.StronglySorted blt (map rpat (rlist root))) (t_roots t).
+Proof. exact iter_sorted_thm. Qed.
+Print Assumptions C02_iter_sorted.
+
+(* the hypothesis of C02_refines_map is evaluable on recorded histories *)
+Theorem C02_hops_okb_sound : forall ops, forallb hop_okb ops = true -> Forall hop_ok ops.
+Proof. exact hops_okb_ok. Qed.
+Print Assumptions C02_hops_okb_sound.
